@@ -54,7 +54,7 @@ def run(ctx):
     nontrivial = 0
     entries = [0] * 11
     for i, (nt, nops) in enumerate(runs):
-        seed = ctx.seed * 1000 + i
+        seed = ctx.seed * 1000 + i          # odd seeds run a save / restore pair of the overloads before the threads start
         meta = {"mode": "run", "seed": seed, "threads": nt, "ops": nops, "yield": 1 + (i % 2)}
         rc, out, to, logp = one_run(ctx, exe, seed, nt, nops, "r%d" % i, meta["yield"])
         info = judge(ctx, rc, out, to, logp, meta, "threads-%d" % nt)
@@ -77,7 +77,7 @@ def run(ctx):
         raise Infra("thread-safe entry points never exercised: %s" % unexercised)
 
     # ---- misuse while the lock is held: reported as a failure, run continues, lock not left held (deadline = no hang)
-    misuse_leg(ctx, exe, [0, 1, 2])
+    misuse_leg(ctx, exe, [0, 1, 2, 3])
     return ctx.finish(
         rule="executions = real multi-threaded runs (2..16 threads, seeded scripts through all eleven thread-safe entry points, forced yields at "
              "lock acquire/release) whose totally ordered event logs (mutex seams + hook H3 table events) are validated by TLC against the lock "
@@ -116,7 +116,7 @@ def judge(ctx, rc, out, to, logp, meta, label):
 
 
 def misuse_leg(ctx, exe, kinds):
-    names = {0: "overrun", 1: "foreign", 2: "double"}
+    names = {0: "overrun", 1: "foreign", 2: "double", 3: "overrun-after-detector-swap"}
     for k in kinds:
         logp = os.path.join(ctx.work, "misuse-%d.ndjson" % k)
         rc, out, to = ctx.run([exe, "misuse", str(k), logp], timeout=20)
